@@ -87,7 +87,7 @@ CHECKS = {
         "title": "Vesting module account is always exactly backed by its pools",
         "level": "exploration",
         "technique": "stateful property-based testing (rapid state machine over the vesting message grammar); invariant oracle after every message, state-digest comparison for rejected messages",
-        "tests": [T("TestC05", 500, 2500, qshards=2, steps=50), T("TestC05Restart", 40, 150, qshards=2, timeout=900)],
+        "tests": [T("TestC05", 500, 2500, qshards=2, steps=65), T("TestC05Restart", 40, 150, qshards=2, timeout=900)],
         "rule": "TestC05Restart: generated genesis and 4-14 blocks of signed transactions on the ABCI chain (as C11), the node process restarting (new application instance over the same database) after a block one time in four; module balance == sum over pools after every block and after every restart. TestC05: cases = 1-4 generated vesting types (free fraction from a boundary pool, lockup/vesting 0s..3y) + 0-6 seeded pools + a rapid state machine (avg 50 steps) over create-pool / send-to-vesting-account / withdraw-all / create-vesting-account / split / move / move-by-denoms / advance-time (to lock-end-1ns, lock end, +1ns, or by 1ns..1y), arguments drawn relative to the current state (existing and missing pools and types, amount in {0, 1, remainder, remainder+1, -1, random}, recipient in {fresh, existing, self, blocked module}). "
                 "Non-trivial = history contains an accepted send, a withdrawal that paid after a lock end, and a rejected message. Distinct = SHA-256 of the operation history.",
         "min_nontrivial_fraction": 0.2,
@@ -100,7 +100,7 @@ CHECKS = {
         "title": "Pool time-lock: nothing is withdrawable before lock end, all of it once after",
         "level": "exploration",
         "technique": "stateful property-based testing (rapid state machine) with a pre/post oracle on every withdrawal and send, boundary-biased block times, query/transaction agreement",
-        "tests": [T("TestC06", 500, 2500, qshards=2, steps=50)],
+        "tests": [T("TestC06", 500, 2500, qshards=2, steps=65)],
         "plain_tests": ["TestRegressSpelling"],
         "rule": "cases = as C05 (owner, recipient and query addresses are spelled in lower or, one time in five, in upper case bech32; governance proposals to change the vesting denomination are part of the histories once pools exist); block time is moved to lock-end-1ns / lock end / lock-end+1ns of existing pools two times out of three. Oracle on every withdraw-all: owner balance delta == sum of (locked remainder) over pools with now >= lock end == response, every other pool untouched, an immediate second withdrawal pays 0, the VestingPools query's withdrawable / currently_locked / sent_amount per pool equal what the same-block withdrawal paid and the ledger; on every send: locked pools lose coins only through their sent counter and only into a previously absent address that is now a continuous vesting account holding exactly that amount. "
                 "Non-trivial = a withdrawal was evaluated for an owner having both a matured and a still locked pool. Distinct = SHA-256 of the history.",
@@ -114,7 +114,7 @@ CHECKS = {
         "title": "New vesting accounts get exactly the documented amount and schedule",
         "level": "exploration",
         "technique": "stateful property-based testing (rapid) with an exact-rational oracle for the vested part and the documented schedule rules",
-        "tests": [T("TestC08", 600, 3000, qshards=2, steps=50)],
+        "tests": [T("TestC08", 600, 3000, qshards=2, steps=70)],
         "rule": "cases = as C05; the vesting types are installed through the module's real genesis import, each period stated as value and unit with the unit drawn among those that divide it. Oracle on every accepted pool send: recipient did not exist before, is a ContinuousVestingAccount holding exactly the amount, original vesting == floor(amount*(1-free)) computed with big.Rat, start/end == (now+lockup, now+lockup+vesting) for restart or (lock end, lock end) otherwise (unix seconds), the pool's sent counter grew by exactly the amount, other pools changed only by the implicit withdrawal; a send above the pool's remaining locked amount or to an existing address must be rejected. On direct creation: sender -coins, recipient +coins, original vesting == coins, given start/end. "
                 "Non-trivial = an accepted send whose free part amount*free is not an integer, or an accepted send of exactly the pool's remainder. Distinct = SHA-256 of the history.",
         "min_nontrivial_fraction": 0.08,
@@ -222,7 +222,7 @@ CHECKS = {
         "level": "exploration",
         "technique": "property-based differential testing (rapid): generated ABCI histories executed on two independently constructed applications (thorough: plus a replica in a second OS process), comparing app hashes, transaction results and events at every height",
         "tests": [T("TestC11", 25, 120, qshards=4, timeout=900), T("TestC11Upgrade", 300, 400, qshards=1)],
-        "plain_tests": ["TestRegressC11NodeFlags"],
+        "plain_tests": ["TestRegressC11NodeFlags", "TestRegressUpgradeTimeZone"],
         "rule": "TestC11Upgrade: generated pre-upgrade states (the C16 generator) are upgraded to v1.2.0 twice, as two replicas execute the upgrade block (keeper-level steps or the real upgrade handler), and the cfevesting, cfeminter, cfedistributor, bank, auth, params and upgrade stores must be byte-identical; non-trivial = the pool split applied or at least two owner records were migrated. TestC11: replicas per history: F started with drawn node-local options (x/crisis invariants skipped at genesis, invariant check period 0-3); B fresh app in the same process; R process restarts (new app instance over the same database) after 1-3 drawn blocks; S also serves CheckTx / Simulate / gRPC queries for the coming transactions between blocks; C second OS process (1-4 histories per shard). cases = generated genesis (minter configuration, sub-distributor configuration, 1-4 vesting types, 0-3 genesis pools) + 5-25 blocks with dt in {1s,5s,11s,1min,1d,30d}, each carrying 0-4 signed SIGN_MODE_DIRECT transactions built against the live state: create pool, pool send, withdraw, direct vesting-account creation, split / move / move-by-denoms signed by previously created vesting accounts, MsgDelegate from vesting accounts, bank sends into distributor sources, cfesignature messages (unroutable on this tree), governance proposals carrying minter / distributor / vesting parameter updates followed by a validator-delegator yes vote and execution after the 10 s voting period, user-signed parameter updates, garbage bytes and wrong-sequence transactions. "
                 "Replica B is a separately constructed app fed the identical genesis bytes and transaction bytes. Compared per height: Commit app hash, every ResponseDeliverTx {code, codespace, data, gas used/wanted, events}, BeginBlock and EndBlock events, validator updates. Log strings are not compared (ABCI declares them non-deterministic), differences are counted. Non-trivial = at least one accepted vesting transaction and one rejected transaction. Distinct = SHA-256 of (genesis, history).",
         # fractions are taken over the cases of both tests; TestC11 contributes about a quarter of them
